@@ -219,8 +219,10 @@ def check(ctx, stmts, text, wit, workload, um=(), files=None, hits=()):
             with warnings.catch_warnings():
                 warnings.simplefilter("ignore")
                 p.parse(include_ccdecays=False)
+                # parsed without conjugated tables: the statements of the text are reported all the same (only the *tables* are not made)
+                off = [("switch-off:" + a, b) for a, b in snapshot.compare_globals(p, exp)]
                 p.parse()
-            return snapshot.compare_globals(p, exp)
+            return off + snapshot.compare_globals(p, exp)
 
         ok9, bad9 = ctx.guard("second-parse", wit, again)
         for mech, msg in (bad9 or []):
